@@ -96,7 +96,9 @@ func (h *c09Sched) release(t int) {
 	ch := h.parked[t]
 	delete(h.parked, t)
 	h.mu.Unlock()
-	close(ch)
+	if ch != nil {
+		close(ch)
+	}
 }
 
 // next waits for the next event of thread t.
@@ -492,6 +494,19 @@ func TestVerifC09Pipe(t *testing.T) {
 		stat.Inc("pipe.alloc")
 	}
 	for hi := 0; hi < hist; hi++ {
+		c09PipeScenario(r.Fork(), st, stat)
+	}
+	stat.Write("c09pipe")
+}
+
+func c09PipeScenario(r *VRand, st *VStream, stat *VStats) {
+	defer func() {
+		if e := recover(); e != nil {
+			verifYieldHook = nil
+			st.Emit("P harness", fmt.Sprintf("stuck: harness lost track of the real code: %v", e))
+		}
+	}()
+	{
 		w := &c09PipeWorld{st: st, stat: stat, h: newC09Sched(), slots: map[*responseSlot]int{}, holder: map[int]int{}}
 		nconn := 1 + r.Intn(2)
 		for c := 0; c < nconn; c++ {
@@ -720,7 +735,6 @@ func TestVerifC09Pipe(t *testing.T) {
 			}
 		}
 	}
-	stat.Write("c09pipe")
 }
 
 var _ = bytes.Fields
